@@ -171,6 +171,8 @@ def edition_cases(sh):
         for y in sorted(ys):
             for pos in POSITIONS:
                 yield {"part": sh["part"], "tok": tok, "text": render(rep, "%04d" % y, pos)}
+            for vol, page in (("1", "5"), ("2", "5"), ("100", "5A"), ("2", "xii")):
+                yield {"part": sh["part"], "tok": tok, "text": f"Foo v. Bar, {vol} {rep} {page} ({y:04d})."}
 
 
 def run_shard(sh):
